@@ -129,34 +129,34 @@ def main():
         print(f"HARNESS-ERROR engine={r.get('engine')} run={r['k']}:\n{r['harness_error']}")
         rc = 2
     if viol_runs and rc == 0:
-        r, new = viol_runs[0]
-        v = new[0]
-        target = (v["property"], v["clause"])
-        print(f"violation in run {r['k']}: clause={v['clause']} op={v['op']}\n  {v['msg']}")
-        trace = r["trace"]
-        engine = get_engine(r["engine"])
-        if v["clause"] == "differs-across-interpreters":
-            replay_path = core.write_replay(prop, seed, r["k"], r["engine"], prop, trace, trace, v)
-            code, out = core.replay_in_fresh_process(replay_path)
-            if code == 1:
-                print(f"VIOLATION property={prop} replay={replay_path}")
-                rc = 1
+        # report the first violating run whose violation reproduces from its replay file in a fresh interpreter
+        # (up to four candidates are tried before the harness itself is blamed)
+        attempts = []
+        for r, new in viol_runs[:4]:
+            v = new[0]
+            target = (v["property"], v["clause"])
+            print(f"violation in run {r['k']}: clause={v['clause']} op={v['op']}\n  {v['msg']}")
+            trace = r["trace"]
+            engine = get_engine(r["engine"])
+            if v["clause"] == "differs-across-interpreters":
+                replay_path = core.write_replay(prop, seed, r["k"], r["engine"], prop, trace, trace, v)
             else:
-                print(f"HARNESS-ERROR cross-interpreter difference did not reproduce:\n{out[-600:]}")
-                rc = 2
-        else:
-            minimised, tried = core.shrink(engine, trace, prop, target, max_s=float(os.environ.get("VERIF_SHRINK_S", "60")))
-            res_min = core.run_trace(engine, minimised, prop)
-            vmin = next((x for x in res_min["violations"] if (x["property"], x["clause"]) == target), v)
-            replay_path = core.write_replay(prop, seed, r["k"], r["engine"], prop, minimised, trace, vmin)
-            print(f"minimised after {tried} candidate executions; clause={vmin['clause']}\n  {vmin['msg']}")
+                minimised, tried = core.shrink(engine, trace, prop, target, max_s=float(os.environ.get("VERIF_SHRINK_S", "60")))
+                res_min = core.run_trace(engine, minimised, prop)
+                vmin = next((x for x in res_min["violations"] if (x["property"], x["clause"]) == target), v)
+                replay_path = core.write_replay(prop, seed, r["k"], r["engine"], prop, minimised, trace, vmin)
+                print(f"minimised after {tried} candidate executions; clause={vmin['clause']}\n  {vmin['msg']}")
             code, out = core.replay_in_fresh_process(replay_path)
             if code == 1 and "VIOLATION property=%s" % prop in out:
                 print(f"VIOLATION property={prop} replay={replay_path}")
                 rc = 1
-            else:
-                print(f"HARNESS-ERROR replay of {replay_path} in a fresh process did not reproduce (exit {code}):\n{out[-800:]}")
-                rc = 2
+                break
+            attempts.append((replay_path, code, out[-500:]))
+            print(f"  (replay of {replay_path} in a fresh process did not reproduce: exit {code}; trying the next violating run)")
+        if rc == 0:
+            path, code, out = attempts[0]
+            print(f"HARNESS-ERROR replay of {path} in a fresh process did not reproduce (exit {code}):\n{out}")
+            rc = 2
     seen_known = set()
     for k, v, e in known_hits:
         keyk = (e["property"], e["clause"], e.get("key", ""))
